@@ -86,3 +86,13 @@ package cmd
 //@   before call:TopRanking#1: assert [c09.types] (qtype == "csv" || qtype == "fasta") && (ttype == "csv" || ttype == "fasta") && implies(qtype == "fasta" || ttype == "fasta", len(udReference) != 0)
 //@   after call:TopRanking#1: do gCalled = true; gRet = ret()
 //@   ensures [c18.exit.status] implies(gCalled, result == gRet)
+
+//@ # error -> exit status: the process exits with status 1 exactly when the command tree returned an error
+//@ func Execute
+//@   modifies everything
+//@   ghost gErr bool = false
+//@   ghost gExit bool = false
+//@   after call:Execute#1: do gErr = ret() != nil
+//@   before call:Exit#1: assert [c18.exit.code] arg(0) == 1 && gErr
+//@   before call:Exit#1: do gExit = true
+//@   ensures [c18.exit.iff.error] gExit == gErr
